@@ -249,7 +249,12 @@ class Handle : private SelfPart<Shell> {
     if (this == &o) {
       // Assigning a value-holding element onto itself is what the property forbids for non relocatable types;
       // a self move of an already moved-from shell (std::swap(x, x) reached through a legal v.swap(v)) is fine.
-      if (!DeclTR && _id != 0) violation(P02, "element holding value %d is move-assigned onto itself", peek());
+      if (!DeclTR && _id != 0) {
+        violation(P02 | PSOFT, "element holding value %d is move-assigned onto itself", peek());
+        // like many real types (a std::string beyond its small buffer), a self move assignment loses the value
+        cell_free(_id, "self move assignment");
+        _id = 0;
+      }
       return *this;
     }
     if (o._id != 0 && !cell_live(o._id)) (void)o.val_for("move assignment source");
@@ -302,7 +307,7 @@ class Handle : private SelfPart<Shell> {
     }
     check_shell(who);
     if (_id == 0) {
-      violation(P02, "%s: element is in a moved-from state", who);
+      violation(P02 | PSOFT, "%s: element is in a moved-from state", who);
       return -1;
     }
     if (!cell_live(_id)) {
